@@ -78,10 +78,38 @@ def controls_c15(rep):
     rep.fixture('F.pair on fixtures/bad_shapes.cpp (leak_on_throw)', hit)
 
 
-def controls_own(rep):
+def controls_own(rep, db=None):
     """the invariant/accounting predicates must reject hand-made bad ownership states"""
-    from own import World, Choices, mk_vector, check_invariants
-    from interp import Ptr, NULL
+    from own import World, Choices, mk_vector, check_invariants, OwnHooks, Violation
+    from interp import Ptr, NULL, Interp
+    # an allocation failure inside a function declared noexcept cannot propagate
+    fdb = FixtureDB()
+    wn = World(Choices(()), 1)
+    itn = Interp(fdb.unit('fixture'), OwnHooks(wn))
+    got = None
+    try:
+        itn.call(fdb.one('fixture', 'squids::fixture::first_of_scratch', 1), None, [4])
+    except Violation as v:
+        got = v.rule
+    except Exception as e:
+        got = 'other: %s' % type(e).__name__
+    rep.fixture('B.exc.terminate on fixtures/bad_shapes.cpp (first_of_scratch: allocation failure inside a noexcept function)', got == 'B.exc.terminate')
+    if db is not None:
+        # a block that is not optimally aligned, once in the cache, is handed out unchanged by the library's allocator
+        wa = World(Choices(()))
+        pv = mk_vector(wa, 'p', 'plain', 2, 'p')
+        blk = wa.block_of(pv.value.fields['components'].value)
+        blk.cached_offset = 0
+        ha = OwnHooks(wa)
+        ita = Interp(db.unit('SUNalg'), ha)
+        got = None
+        try:
+            ha.served_misaligned(ita, db.unit('SUNalg').by_name['squids::SU_vector::alloc_aligned'][0], blk, 2)
+        except Violation as v:
+            got = v.rule
+        except Exception as e:
+            got = 'other: %s: %s' % (type(e).__name__, e)
+        rep.fixture('B.align: a misaligned block placed in the cache is seen to be handed out by alloc_aligned', got == 'B.align')
     w = World(Choices(()))
     a = mk_vector(w, 'a', 'owned', 2, 'a')
     b = mk_vector(w, 'b', 'owned', 2, 'b')
